@@ -172,3 +172,37 @@ func vpT_C19_eq3() {
 	kb := vpChoice(4)
 	vpC19Eq(ka, kb)
 }
+
+// two entries given the very same text slice, then one of them is set to something else: the other
+// entry and the caller's slice keep their bytes (the container does not write into texts it was given)
+func vpH_C19_shared_text() {
+	t := make(Content, 2, 8)
+	t[0], t[1] = vpRange('a', 'c'), vpRange('a', 'c')
+	keep := Content{t[0], t[1]}
+	u := Content{vpRange('x', 'z')}
+	var n NaturalLanguageValues
+	_ = n.Append("en", t)
+	if vpBool() {
+		_ = n.Append("fr", t)
+	} else {
+		n.Add(LangRefValue{Ref: "fr", Value: t})
+	}
+	switch vpChoice(3) {
+	case 0:
+		_ = n.Set("en", u)
+		vpAssert("shared/set-get", bytes.Equal(n.Get("en"), u))
+	case 1:
+		_ = n.Set("en", Content{})
+	default:
+		_ = n.Append("de", u)
+	}
+	vpAssert("shared/other-entry-intact", bytes.Equal(n.Get("fr"), keep))
+	vpAssert("shared/callers-text-intact", bytes.Equal(t, keep))
+	vpReach("end")
+}
+
+func vpW_C19_twin() {
+	var n NaturalLanguageValues
+	_ = n.Append("en", Content{vpByte()})
+	vpAssert("twin", false)
+}
